@@ -416,12 +416,34 @@ class Interp:
                 finished.extend(f)
             return finished, cur + broke
         if isinstance(st, ast.While):
-            c = self.truth(st.test, e)
-            if c is False:
-                return [], [e]
-            if self._effectful(st, e):
-                raise Unknown('while loop with an observable effect: %s (%s)' % (stmt_text(st)[:80], loc(st)))
-            return [], [e]
+            # executed concretely while its test is computable (bounded); un-modelled loops must have no observable effect
+            cur, finished, out = [e], [], []
+            for _ in range(64):
+                step = []
+                for e2 in cur:
+                    c = self.truth(st.test, e2)
+                    if c is None:
+                        if self._effectful(st, e2):
+                            raise Unknown('while loop with an observable effect and an uncomputable test: %s (%s)' % (stmt_text(st)[:80], loc(st)))
+                        out.append(e2)
+                        continue
+                    if c is False:
+                        out.append(e2)
+                        continue
+                    f, n = self._block(st.body, [e2])
+                    finished.extend(f)
+                    for e3 in n:
+                        j = e3.pop('<jump>', None)
+                        if j == 'break':
+                            out.append(e3)
+                        else:
+                            step.append(e3)
+                cur = step
+                if not cur:
+                    break
+            if cur:
+                raise Unknown('while loop does not terminate within the interpreter\'s bound: %s (%s)' % (stmt_text(st)[:80], loc(st)))
+            return finished, out
         if isinstance(st, ast.Return):
             try:
                 e['<return>'] = self.value(st.value, e) if st.value is not None else None
@@ -440,6 +462,20 @@ class Interp:
         if isinstance(st, ast.Try):
             if self._effectful(st, e):
                 raise Unknown('try statement with an observable effect: %s (%s)' % (stmt_text(st)[:60], loc(st)))
+            return [], [e]
+        if isinstance(st, ast.Delete) and all(isinstance(t, ast.Subscript) for t in st.targets):
+            for t in st.targets:
+                try:
+                    base = self.value(t.value, e)
+                except Unknown:
+                    continue
+                if isinstance(base, (list, dict)):
+                    try:
+                        del base[self.value(t.slice, e)]
+                    except Unknown:
+                        raise Unknown('deletion from a tracked container with an uncomputable index: %s' % unparse(t))
+                    except (KeyError, IndexError):
+                        raise Unknown('deletion of a missing element from a tracked container: %s' % unparse(t))
             return [], [e]
         if isinstance(st, (ast.Assert, ast.Delete)):
             if self._effectful(st, e):
